@@ -117,6 +117,7 @@ package interpreter
 //@ ensures [err] result1 == nil || isErr(result1)
 //@ ensures [flagmono] old(utils.HadRuntimeError) ==> utils.HadRuntimeError
 //@ ensures [noparse] utils.HadError == old(utils.HadError)
+//@ ensures [iomono] stdoutN >= old(stdoutN) && stderrN >= old(stderrN) && (!utils.HadRuntimeError ==> stderrN == old(stderrN))
 
 // ---- math built-ins (C17) ---------------------------------------------
 
@@ -245,6 +246,7 @@ package interpreter
 //@ ensures [canon] canon(result0)
 //@ ensures [flagmono] old(utils.HadRuntimeError) ==> utils.HadRuntimeError
 //@ ensures [noparse] utils.HadError == old(utils.HadError)
+//@ ensures [iomono] stdoutN >= old(stdoutN) && stderrN >= old(stderrN) && (!utils.HadRuntimeError ==> stderrN == old(stderrN))
 
 // The rules below are the operational meaning of each construct, written from the property statements (C03-C06, C11,
 // C12, C14, C15) over the ghost event log of the invocation: event k is the k-th eval / Callable.Call made by this
@@ -419,6 +421,7 @@ package interpreter
 
 //@ loop 1:
 //@   invariant [flagmono] old(utils.HadRuntimeError) ==> utils.HadRuntimeError
+//@   invariant [iomono] stdoutN >= old(stdoutN) && stderrN >= old(stderrN) && (!utils.HadRuntimeError ==> stderrN == old(stderrN))
 //@   invariant [log] evN() == iter
 //@   invariant [private] properties != nil && !old(mapAllocated(now(properties)))
 //@   invariant [events] forall(k, 0, iter, evalAt(k, ol.Properties[ol.Keys[k].Lexeme], env, isRepl) && sigT(k) == 0)
@@ -426,6 +429,7 @@ package interpreter
 //@   invariant [now] iter > 0 ==> stateIsPostY(iter-1)
 //@ loop 2:
 //@   invariant [flagmono] old(utils.HadRuntimeError) ==> utils.HadRuntimeError
+//@   invariant [iomono] stdoutN >= old(stdoutN) && stderrN >= old(stderrN) && (!utils.HadRuntimeError ==> stderrN == old(stderrN))
 //@   invariant [log] evN() == iter && len(elements) == iter
 //@   invariant [private] !old(arrAllocated(now(ref(elements))))
 //@   invariant [events] forall(k, 0, iter, evalAt(k, al.Elements[k], env, isRepl) && sigT(k) == 0)
@@ -433,12 +437,14 @@ package interpreter
 //@   invariant [now] iter > 0 ==> stateIsPostX(iter-1)
 //@ loop 3:
 //@   invariant [flagmono] old(utils.HadRuntimeError) ==> utils.HadRuntimeError
+//@   invariant [iomono] stdoutN >= old(stdoutN) && stderrN >= old(stderrN) && (!utils.HadRuntimeError ==> stderrN == old(stderrN))
 //@   invariant [nargs] len(arguments) == iter && evN() == iter+1
 //@   invariant [callee] evalAt(0, cl.Callee, env, isRepl) && entryIsPre(0) && sigT(0) == 0 && callable(evVal(0)) && callee == evVal(0) && (arityOf(evVal(0)) == -1 || cn == arityOf(evVal(0)))
 //@   invariant [events] forall(k, 1, iter+1, evalAt(k, cl.Arguments[k-1], env, isRepl) && sigT(k) == 0 && followsX(k))
 //@   invariant [now] stateIsPostX(iter)
 //@ loop 4:
 //@   invariant [flagmono] old(utils.HadRuntimeError) ==> utils.HadRuntimeError
+//@   invariant [iomono] stdoutN >= old(stdoutN) && stderrN >= old(stderrN) && (!utils.HadRuntimeError ==> stderrN == old(stderrN))
 //@   invariant [log] evN() == iter
 //@   invariant [events] forall(k, 0, iter, evKind(k) == 1 && evEnv(k) == env && evRepl(k) == isRepl && isVarStmt(evChild(k)) && evChild(k).(*ast.VarStmt).Name == vl.Declarations[k].Name && evChild(k).(*ast.VarStmt).Initializer == vl.Declarations[k].Initializer && evChild(k).(*ast.VarStmt).Line == vl.Declarations[k].Line && live(k))
 //@   invariant [nodes] forall(k, 0, iter, varStmtAllocated(vpref(evChild(k))))
@@ -447,6 +453,7 @@ package interpreter
 //@   invariant [now] (iter > 0 ==> stateIsPost(iter-1)) && (iter == 0 ==> unchanged())
 //@ loop 5:
 //@   invariant [flagmono] old(utils.HadRuntimeError) ==> utils.HadRuntimeError
+//@   invariant [iomono] stdoutN >= old(stdoutN) && stderrN >= old(stderrN) && (!utils.HadRuntimeError ==> stderrN == old(stderrN))
 //@   invariant [log] evN() == iter
 //@   invariant [scope] newEnv != nil && !old(envAllocated(now(newEnv))) && envParent(newEnv) == env && !old(mapAllocated(now(envTable(newEnv))))
 //@   invariant [events] forall(k, 0, iter, evalAt(k, blk.Block[k], newEnv, isRepl) && live(k))
@@ -457,6 +464,7 @@ package interpreter
 //@ loop 6:
 //@   interpreted
 //@   invariant [flagmono] old(utils.HadRuntimeError) ==> utils.HadRuntimeError
+//@   invariant [iomono] stdoutN >= old(stdoutN) && stderrN >= old(stderrN) && (!utils.HadRuntimeError ==> stderrN == old(stderrN))
 //@   invariant [parity] evN() % 2 == 0 && evN() >= 0
 //@   invariant [events] forall(k, 0, evN(), (k % 2 == 0 ==> evalAt(k, wh.Condition, env, isRepl) && sigT(k) == 0 && truthySpec(evVal(k))) && (k % 2 == 1 ==> evalAt(k, wh.Body, env, isRepl) && (sigT(k) == 0 || sigT(k) == 2) && !postFlag(k)))
 //@   invariant [chain] forall(k, 1, evN(), follows(k))
@@ -465,6 +473,7 @@ package interpreter
 //@ loop 7:
 //@   interpreted
 //@   invariant [flagmono] old(utils.HadRuntimeError) ==> utils.HadRuntimeError
+//@   invariant [iomono] stdoutN >= old(stdoutN) && stderrN >= old(stderrN) && (!utils.HadRuntimeError ==> stderrN == old(stderrN))
 //@   invariant [phase] evN() >= fb && (evN()-fb) % fp == 0
 //@   invariant [scope] newEnvironement != nil && !old(envAllocated(now(newEnvironement))) && envParent(newEnvironement) == env && !old(mapAllocated(now(envTable(newEnvironement))))
 //@   invariant [init] fr.Initializer != nil ==> evalAt(0, fr.Initializer, newEnvironement, isRepl) && sigT(0) == 0
@@ -486,6 +495,7 @@ package interpreter
 // the parameters bound by position; then the body statements in order, in that scope, not in REPL mode
 //@ loop 1:
 //@   invariant [flagmono] old(utils.HadRuntimeError) ==> utils.HadRuntimeError
+//@   invariant [iomono] stdoutN >= old(stdoutN) && stderrN >= old(stderrN) && (!utils.HadRuntimeError ==> stderrN == old(stderrN))
 //@   invariant [scope] functionEnv != nil && !old(envAllocated(now(functionEnv))) && envParent(functionEnv) == f.Closure && !old(mapAllocated(now(envTable(functionEnv))))
 //@   invariant [log] evN() == 0 && curEV() == old(curEV()) && stdoutN == old(stdoutN) && stderrN == old(stderrN) && utils.HadRuntimeError == old(utils.HadRuntimeError)
 //@   invariant [frame] forall(r, Int, old(mapAllocated(r)) ==> sel(curMD(), r) == sel(old(curMD()), r) && sel(curMV(), r) == sel(old(curMV()), r) && sel(curMC(), r) == sel(old(curMC()), r))
@@ -494,6 +504,7 @@ package interpreter
 //@   invariant [self] (forall(j, 0, iter, decl.Params[j].Lexeme != decl.Name.Lexeme)) ==> envHere(functionEnv, decl.Name.Lexeme) && objGet(envTable(functionEnv), decl.Name.Lexeme) == VPtr(TAG_p_interpreter_Function, f)
 //@ loop 2:
 //@   invariant [flagmono] old(utils.HadRuntimeError) ==> utils.HadRuntimeError
+//@   invariant [iomono] stdoutN >= old(stdoutN) && stderrN >= old(stderrN) && (!utils.HadRuntimeError ==> stderrN == old(stderrN))
 //@   invariant [scope] functionEnv != nil && !old(envAllocated(now(functionEnv))) && envParent(functionEnv) == f.Closure && !old(mapAllocated(now(envTable(functionEnv))))
 //@   invariant [log] evN() == iter
 //@   invariant [events] forall(k, 0, iter, evalAt(k, decl.Body[k], functionEnv, false) && sigT(k) == 0)
@@ -502,6 +513,7 @@ package interpreter
 //@   invariant [pre0] iter > 0 ==> preEV(0) == old(curEV()) && preOut(0) == old(stdoutN) && preErr(0) == old(stderrN) && preFlag(0) == old(utils.HadRuntimeError) && forall(r, Int, old(mapAllocated(r)) ==> sel(preMD(0), r) == sel(old(curMD()), r) && sel(preMV(0), r) == sel(old(curMV()), r)) && (distinctParams ==> forall(k, 0, np, sel(sel(preMD(0), envTable(functionEnv)), decl.Params[k].Lexeme) && sel(sel(preMV(0), envTable(functionEnv)), decl.Params[k].Lexeme) == old(elem(arguments, nameIndex(decl.Params[k].Lexeme)))))
 //@   invariant [start] iter == 0 ==> curEV() == old(curEV()) && stdoutN == old(stdoutN) && stderrN == old(stderrN) && utils.HadRuntimeError == old(utils.HadRuntimeError) && forall(r, Int, old(mapAllocated(r)) ==> sel(curMD(), r) == sel(old(curMD()), r) && sel(curMV(), r) == sel(old(curMV()), r)) && (distinctParams ==> forall(k, 0, np, envHere(functionEnv, decl.Params[k].Lexeme) && objGet(envTable(functionEnv), decl.Params[k].Lexeme) == old(elem(arguments, nameIndex(decl.Params[k].Lexeme)))))
 //@ ensures [noerr] result1 == nil
+//@ ensures [iomono] stdoutN >= old(stdoutN) && stderrN >= old(stderrN) && (!utils.HadRuntimeError ==> stderrN == old(stderrN))
 //@ ensures [activation] evN() > 0 ==> !old(envAllocated(now(evEnv(0)))) && envParent(evEnv(0)) == f.Closure && !old(mapAllocated(now(envTable(evEnv(0))))) [C03,C04]
 // positional binding: with pairwise distinct parameter names (nameIndex(P[k]) == k), parameter k is bound to argument k
 //@ ensures [binding] evN() > 0 && distinctParams ==> forall(k, 0, np, sel(sel(preMD(0), envTable(evEnv(0))), decl.Params[k].Lexeme) && sel(sel(preMV(0), envTable(evEnv(0))), decl.Params[k].Lexeme) == old(elem(arguments, nameIndex(decl.Params[k].Lexeme)))) [C04]
@@ -518,6 +530,7 @@ package interpreter
 // behind (reported as an error with the signal's own line) or a runtime error has been reported
 //@ loop 1:
 //@   invariant [flagmono] old(utils.HadRuntimeError) ==> utils.HadRuntimeError
+//@   invariant [iomono] stdoutN >= old(stdoutN) && stderrN >= old(stderrN) && (!utils.HadRuntimeError ==> stderrN == old(stderrN))
 //@   invariant [scope] env != nil && !old(envAllocated(now(env))) && envParent(env) == i.globals && !old(mapAllocated(now(envTable(env))))
 //@   invariant [log] evN() == iter
 //@   invariant [events] forall(k, 0, iter, evalAt(k, statements[k], env, isRepl) && live(k))
@@ -531,6 +544,7 @@ package interpreter
 //@ ensures [stop] evN() < len(statements) ==> evN() > 0 && !live(evN()-1) [C06]
 //@ ensures [empty] len(statements) == 0 ==> evN() == 0 && stdoutN == old(stdoutN) && stderrN == old(stderrN) && utils.HadRuntimeError == old(utils.HadRuntimeError) [C19]
 //@ ensures [noparse] utils.HadError == old(utils.HadError)
+//@ ensures [iomono] stdoutN >= old(stdoutN) && stderrN >= old(stderrN) && (!utils.HadRuntimeError ==> stderrN == old(stderrN)) && (old(utils.HadRuntimeError) ==> utils.HadRuntimeError)
 
 //@ func NewInterpreter [C17,C08]
 //@ ensures [fresh] result != nil && result.globals != nil
@@ -571,3 +585,14 @@ package interpreter
 //@ ensures [ok] len(arguments) == 1 && isObj(arguments[0]) ==> result1 == nil && isArr(result0) && len(arr(result0)) == objCard(obj(arguments[0]))
 //@ ensures [listing] result1 == nil ==> forall(j, 0, len(arr(result0)), elem(arr(result0), j) == objGet(obj(arguments[0]), sortedKeyOf(objDom(obj(arguments[0])), j)))
 //@ ensures [pure] curMD() == old(curMD()) && curMV() == old(curMV()) && curMC() == old(curMC())
+
+// ---- ইনপুট (C19) ----------------------------------------------------------
+// each call hands over exactly the next line of stdin (trimmed), also a last line without a newline; at most one prompt is written
+
+//@ func (n NativeInputFn) Call [C19]
+//@ ensures [count] len(arguments) > 1 ==> result1 != nil && delivered == old(delivered) && stdoutN == old(stdoutN)
+//@ ensures [type] len(arguments) == 1 && !isStr(arguments[0]) ==> result1 != nil && delivered == old(delivered) && stdoutN == old(stdoutN)
+//@ ensures [line] (len(arguments) == 0 || (len(arguments) == 1 && isStr(arguments[0]))) && old(delivered) < inLines ==> result1 == nil && result0 == mkStr(ext.trimspace(ext.inline(old(delivered)))) && delivered == old(delivered)+1
+//@ ensures [eof] (len(arguments) == 0 || (len(arguments) == 1 && isStr(arguments[0]))) && old(delivered) >= inLines ==> result1 != nil && delivered == old(delivered)
+//@ ensures [prompt] len(arguments) == 1 && isStr(arguments[0]) ==> stdoutN == old(stdoutN)+1 && stdout[old(stdoutN)] == str(arguments[0])
+//@ ensures [noprompt] len(arguments) == 0 ==> stdoutN == old(stdoutN)
